@@ -21,7 +21,7 @@ theorem run_bounds {upper : String → String} {src pre : List Char} {ts : List 
     ts.Pairwise (fun a b => a.off + a.extent ≤ b.off) := by
   induction h with
   | done => simp
-  | tok pre ws lexeme rest t ts es hws hsrc hne ht hrun ih =>
+  | tok pre ws lexeme rest t ts es hws hsrc hne ht hext hrun ih =>
     obtain ⟨ih1, ih2⟩ := ih
     have hpos : 0 < lexeme.length := List.length_pos_iff.mpr hne
     have hlen : src.length = pre.length + ws.length + lexeme.length + rest.length := by
@@ -53,7 +53,7 @@ theorem run_value {upper : String → String} {src pre : List Char} {ts : List T
     ∀ t ∈ ts, t.kind.valueIsLexeme → (src.drop t.off).take t.value.length = t.value ∧ t.extent = t.value.length := by
   induction h with
   | done => simp
-  | tok pre ws lexeme rest t ts es hws hsrc hne ht hrun ih =>
+  | tok pre ws lexeme rest t ts es hws hsrc hne ht hext hrun ih =>
     intro t' ht' hk
     simp only [List.mem_cons] at ht'
     rcases ht' with rfl | ht'
@@ -70,7 +70,7 @@ theorem run_linecol {upper : String → String} {src pre : List Char} {ts : List
     (∀ e ∈ es, e.start = trueLineCol src e.off ∧ e.stop = ⟨e.start.line, e.start.col + 1⟩) := by
   induction h with
   | done => simp
-  | tok pre ws lexeme rest t ts es hws hsrc hne ht hrun ih =>
+  | tok pre ws lexeme rest t ts es hws hsrc hne ht hext hrun ih =>
     refine ⟨?_, ih.2⟩
     intro t' ht'
     simp only [List.mem_cons] at ht'
@@ -98,7 +98,7 @@ theorem run_gaps {upper : String → String} {src pre : List Char} {ts : List To
     left
     rw [hsrc, List.getElem?_append_right hi] at hc
     exact hws c (List.mem_of_getElem? hc)
-  | tok pre ws lexeme rest t ts es hws hsrc hne ht hrun ih =>
+  | tok pre ws lexeme rest t ts es hws hsrc hne ht hext hrun ih =>
     intro i c hi hc hcov
     by_cases h1 : i < (pre ++ ws).length
     · left
@@ -135,7 +135,7 @@ theorem run_word {upper : String → String} {src pre : List Char} {ts : List To
       (∀ d ∈ t.value, isWordCont d = true) := by
   induction h with
   | done => simp
-  | tok pre ws lexeme rest t ts es hws hsrc hne ht hrun ih =>
+  | tok pre ws lexeme rest t ts es hws hsrc hne ht hext hrun ih =>
     intro t' ht' c hc hw
     simp only [List.mem_cons] at ht'
     rcases ht' with rfl | ht'
@@ -147,6 +147,19 @@ theorem run_word {upper : String → String} {src pre : List Char} {ts : List To
       refine ⟨hk, ?_, by rw [hv]; exact hall⟩
       rw [hv, ht.off_eq, hsrc, List.append_assoc (pre ++ ws), List.drop_left, List.take_left]
     · exact ih t' ht' c hc hw
+  | err pre ws c rest e ts es hws hsrc hc he hrun ih => exact ih
+
+theorem run_extent {upper : String → String} {src pre : List Char} {ts : List Token} {es : List LexErr}
+    (h : Run upper src pre ts es) :
+    ∀ t ∈ ts, t.extent = specExtent (src.drop t.off) t.value := by
+  induction h with
+  | done => simp
+  | tok pre ws lexeme rest t ts es hws hsrc hne ht hext hrun ih =>
+    intro t' ht'
+    simp only [List.mem_cons] at ht'
+    rcases ht' with rfl | ht'
+    · rw [hext, ht.off_eq, hsrc, List.append_assoc (pre ++ ws), List.drop_left]
+    · exact ih t' ht'
   | err pre ws c rest e ts es hws hsrc hc he hrun ih => exact ih
 
 /-! ### fuel adequacy: any fuel above the length of the remaining text gives the same result -/
